@@ -350,6 +350,23 @@ func smReplayNone(c *smCase) Verdict {
 			vd.Got = fmt.Sprintf("%+v", sum)
 			return vd
 		}
+		if i == 0 {
+			// neighbouring levels: a request one float above / below this level is a request of
+			// its own - the answer must honour it (reported confidence >= requested, or an
+			// infinite end with a warning), whatever was asked before
+			for _, lv := range []float64{math.Nextafter(cf, 1), math.Nextafter(cf, 0)} {
+				if lv <= 0 || lv >= 1 {
+					continue
+				}
+				nb := benchmath.AssumeNothing.Summary(smSample(v.vals, &thr), lv)
+				infinite := math.IsInf(nb.Lo, 0) || math.IsInf(nb.Hi, 0)
+				if nb.Confidence < lv && !(infinite && len(nb.Warnings) > 0) {
+					vd := fail("none-confidence-below-requested-at-neighbouring-level", "AssumeNothing.Summary n=%d: level %v (one float from %d/%d, asked right after it) answered with confidence %v", c.N, lv, c.C[0], c.C[1], nb.Confidence)
+					vd.Got = fmt.Sprintf("%+v", nb)
+					return vd
+				}
+			}
+		}
 		// metamorphic: shuffles and rescalings of the same sample give the rescaled summary
 		if i == 0 {
 			first = sum
